@@ -100,6 +100,10 @@ type directive struct {
 	Msg  string `json:"msg,omitempty"`
 	Arg  string `json:"arg,omitempty"`  // target or action text
 	Arg2 string `json:"arg2,omitempty"` // a second target for the same selection (two directives / two ctl actions of one rule)
+	// IDs2: a second id list / range removed by a second ctl action of the same rule (overlapping ranges)
+	IDs2 string `json:"ids2,omitempty"`
+	// TagBy: ids of the rules that get the tag Tag only through `SecRuleUpdateActionById <ids> "tag:<Tag>"` written after the rules
+	TagBy string `json:"tag_by,omitempty"`
 	Pos  string `json:"pos,omitempty"`  // ctl placement: p1 | before | after
 	Ctl  bool   `json:"ctl,omitempty"`
 	// SkipBase: rule 1 of the base set carries skip:2, so that a removed rule inside the skip window is observable
@@ -139,9 +143,9 @@ func expandIDs(s string) map[int]bool {
 func (d directive) selects(r ruleD) bool {
 	switch {
 	case d.IDs != "":
-		return expandIDs(d.IDs)[r.ID]
+		return expandIDs(d.IDs)[r.ID] || (d.IDs2 != "" && expandIDs(d.IDs2)[r.ID])
 	case d.Tag != "":
-		return r.Tag == d.Tag
+		return r.Tag == d.Tag || (d.TagBy != "" && expandIDs(d.TagBy)[r.ID])
 	case d.Msg != "":
 		return r.Msg == d.Msg
 	}
@@ -254,6 +258,14 @@ func directives(thorough bool) []directive {
 				ds = append(ds, directive{Ctl: true, Kind: "removeTarget", IDs: ids, Arg: tgt, Pos: pos})
 			}
 		}
+		// overlapping id ranges removed by two ctl actions: the wider one first and second
+		for _, pair := range [][2]string{{"1-4", "2-3"}, {"2-3", "1-4"}, {"2-4", "2"}, {"1-2", "2-5"}} {
+			ds = append(ds, directive{Ctl: true, Kind: "removeById", IDs: pair[0], IDs2: pair[1], Pos: pos})
+		}
+		// a tag that the rules carry only through SecRuleUpdateActionById
+		ds = append(ds, directive{Ctl: true, Kind: "removeByTag", Tag: "tnew", TagBy: "3", Pos: pos},
+			directive{Ctl: true, Kind: "removeByTag", Tag: "tnew", TagBy: "2-4", Pos: pos},
+			directive{Ctl: true, Kind: "removeTarget", Tag: "tnew", TagBy: "3", Arg: "ARGS:a", Pos: pos})
 		// two removals for one rule and one collection: both regex keys, a regex key and the whole collection, two plain keys
 		for _, ids := range []string{"3", "2-3"} {
 			for _, pair := range [][2]string{{"ARGS:/^a/", "ARGS:/^b/"}, {"ARGS:/^b/", "ARGS"}, {"ARGS:a", "ARGS:b"}, {"ARGS:/^a/", "ARGS:b"}} {
@@ -288,6 +300,9 @@ func (d directive) ctlText() string {
 	}
 	switch d.Kind {
 	case "removeById", "removeByTag", "removeByMsg":
+		if d.IDs2 != "" {
+			return fmt.Sprintf("ctl:ruleRemove%s=%s,ctl:ruleRemove%s=%s", by, sel, by, d.IDs2)
+		}
 		return fmt.Sprintf("ctl:ruleRemove%s=%s", by, sel)
 	case "removeTarget":
 		s := fmt.Sprintf("ctl:ruleRemoveTarget%s=%s;%s", by, sel, d.Arg)
@@ -325,6 +340,10 @@ func (d directive) ctlConfigs() (string, string) {
 				sb.WriteString(ctlRule)
 			}
 			sb.WriteString(r.text())
+		}
+		if d.TagBy != "" {
+			// the tag reaches the rules only now, after they were added
+			fmt.Fprintf(&sb, "SecRuleUpdateActionById %s \"tag:%s\"\n", d.TagBy, d.Tag)
 		}
 		return sb.String()
 	}
@@ -459,6 +478,12 @@ func (d directive) sig() string {
 	}
 	if d.Arg2 != "" {
 		arg += ":two-targets"
+	}
+	if d.IDs2 != "" {
+		arg += ":two-overlapping-ranges"
+	}
+	if d.TagBy != "" {
+		arg += ":tag-added-by-update"
 	}
 	return s + ":" + form + arg
 }
